@@ -67,29 +67,30 @@ const (
 	maxHash
 )
 
-// size of digests in bytes
+// size of digests in bytes (an element of the scalar field the hash is defined over;
+// half a permutation state for the small-field Poseidon2 hashes)
 var digestSize = []uint8{
 	MIMC_BN254:     32,
-	MIMC_BLS12_381: 48,
-	MIMC_BLS12_377: 48,
-	MIMC_BW6_761:   96,
-	MIMC_BLS24_315: 48,
-	MIMC_BLS24_317: 48,
-	MIMC_BW6_633:   80,
+	MIMC_BLS12_381: 32,
+	MIMC_BLS12_377: 32,
+	MIMC_BW6_761:   48,
+	MIMC_BLS24_315: 32,
+	MIMC_BLS24_317: 32,
+	MIMC_BW6_633:   40,
 	MIMC_GRUMPKIN:  32,
 
 	POSEIDON2_BN254:     32,
-	POSEIDON2_BLS12_381: 48,
-	POSEIDON2_BLS12_377: 48,
-	POSEIDON2_BW6_761:   96,
-	POSEIDON2_BLS24_315: 48,
-	POSEIDON2_BLS24_317: 48,
-	POSEIDON2_BW6_633:   80,
+	POSEIDON2_BLS12_381: 32,
+	POSEIDON2_BLS12_377: 32,
+	POSEIDON2_BW6_761:   48,
+	POSEIDON2_BLS24_315: 32,
+	POSEIDON2_BLS24_317: 32,
+	POSEIDON2_BW6_633:   40,
 	POSEIDON2_GRUMPKIN:  32,
 
-	POSEIDON2_KOALABEAR:  4,
-	POSEIDON2_BABYBEAR:   4,
-	POSEIDON2_GOLDILOCKS: 8,
+	POSEIDON2_KOALABEAR:  32,
+	POSEIDON2_BABYBEAR:   32,
+	POSEIDON2_GOLDILOCKS: 32,
 }
 
 // New initializes the hash function. This is a convenience function which does
